@@ -286,3 +286,19 @@ package logqlmetric
 //@   loop 0 body_ensures[existing-group-kept] head(has(result, k_r0)) ==> result[k_r0] == head(result[k_r0])
 //@   loop 1 modifies r.Samples, r.Samples[*]
 //@   loop 1 body_ensures[one-sample-per-group] len(r.Samples) == head(len(r.Samples))+1 && same(r.Samples[len(r.Samples)-1].Set, g.metric) && same(r.Samples[len(r.Samples)-1].Data, g.agg.Result())
+
+// ---- C14: resource accounting
+
+//@ ghost state func opened() int
+//@ ghost state func holds(it any) int
+
+// Build either fails and leaves nothing open, or returns an iterator that owns every reader it opened.
+//@ func Build
+//@   trusted
+//@   modifies *, opened(), holds(*)
+//@   ensures[owns-what-it-opened] ret1 == nil ==> opened() == old(opened()) + holds(ret0) && holds(ret0) >= 0
+//@   ensures[nothing-left-open-on-error] ret1 != nil ==> opened() == old(opened())
+
+//@ func ReadStepResponse
+//@   trusted
+//@   modifies *
